@@ -39,7 +39,7 @@ func (m *NodeMarks) grow(i int) {
 	n := i/32 + 1
 	// Round n up to a power of two.
 	k := 1
-	for k > n {
+	for k < n {
 		k <<= 1
 	}
 	marks := make([]uint32, k)
